@@ -711,7 +711,7 @@ pub fn run(max_windows: u64, honest: bool) -> WorldOutcome {
             break;
         }
     }
-    if honest && cutoff == u64::MAX && !kernel::has_violation() {
+    if honest && cutoff == u64::MAX && !kernel::has_violation() && !kernel::capped() {
         // C02, node-local: in an environment that follows the protocol (one block per slot extending the
         // chain, delivered within 100 ms of its nominal time; every other validator votes notar and
         // final within the delay bound) the node must notarize and vote to finalize every block, and
